@@ -504,28 +504,28 @@ func c12Oracle(x *engine.Ctx, s *hstate, before *hstate, res drive.Result, runSt
 			v("incomplete-after-default-run", fmt.Sprintf("entity %s: certificate=%v key=%v request=%v after a successful default run", alias, e.a.Cert != nil, e.a.Key != nil, e.a.CSR != nil))
 			continue
 		}
-		hashed := e.a.Pem.HashLine != nil
-		if !hashed {
-			// user-supplied artifact: not refreshed merely because its configuration differs
-			if bf, ok := before.W.Files[ArtifactPath(c.Path)]; ok {
-				pb := refx509.SplitPem(bf.Data)
-				complete := pb.HashLine == nil && pb.NumCerts > 0 && (pb.NumKeys > 0 || pb.NumReqs > 0) && !pb.Trailing
-				if complete && !bytes.Equal(bf.Data, s.W.Files[ArtifactPath(c.Path)].Data) {
-					// legitimate only if its issuer was regenerated or is newer
-					issuerRegen := c.Issuer != "" && res.Planned(c.Issuer)
-					issuerNewer := false
-					if c.Issuer != "" {
-						if ic := before.D.Cert(c.Issuer); ic != nil {
-							if iaf, ok := before.W.Files[ArtifactPath(ic.Path)]; ok && iaf.Tick > bf.Tick {
-								issuerNewer = true
-							}
+		// user-supplied artifact (complete, no hash line before the run): not refreshed merely because
+		// its configuration differs. Judged on the file as it was BEFORE the run - a refreshed one carries a hash line afterwards.
+		if bf, ok := before.W.Files[ArtifactPath(c.Path)]; ok {
+			pb := refx509.SplitPem(bf.Data)
+			complete := pb.HashLine == nil && pb.NumCerts > 0 && (pb.NumKeys > 0 || pb.NumReqs > 0) && !pb.Trailing
+			if complete && !bytes.Equal(bf.Data, s.W.Files[ArtifactPath(c.Path)].Data) {
+				// legitimate only if its issuer was regenerated or is newer
+				issuerRegen := c.Issuer != "" && res.Planned(c.Issuer)
+				issuerNewer := false
+				if c.Issuer != "" {
+					if ic := before.D.Cert(c.Issuer); ic != nil {
+						if iaf, ok := before.W.Files[ArtifactPath(ic.Path)]; ok && iaf.Tick > bf.Tick {
+							issuerNewer = true
 						}
 					}
-					if !issuerRegen && !issuerNewer {
-						v("user-artifact-refreshed", fmt.Sprintf("entity %s: complete artifact without hash line was rewritten although its issuer was neither regenerated nor newer", alias))
-					}
+				}
+				if !issuerRegen && !issuerNewer {
+					v("user-artifact-refreshed", fmt.Sprintf("entity %s: complete artifact without hash line was rewritten although its issuer was neither regenerated nor newer", alias))
 				}
 			}
+		}
+		if e.a.Pem.HashLine == nil {
 			continue
 		}
 		// (i) reference translation of the current effective configuration
@@ -785,7 +785,7 @@ func init() {
 		Rule:        "breadth-first search over operation histories from 2 (quick) / 3 (thorough) initial worlds (chain of 3 with a profile on the leaf; root with two subs; 5 entities) x 2 clock modes. Operations per entity: edit subject / extensions / validity (3 shapes incl. until-without-from), switch issuer to another valid issuer, attach/detach profile, touch config, delete artifact, truncate after the hash line, strip key block, cut inside the certificate block, replace by a foreign certificate+key without hash line, remove entity (leaves), add entity; per profile: edit extension content, edit validity; runs: default, -a, -o only, -e only, -m only, -c only. All histories up to depth 3 (quick) / 4 (thorough; and depth 5 over the configuration-edit and run operations only, on the 3-chain), deduplicated per shard on the canonical state key (normalised config ASTs, artifacts abstracted to hash line + certificate shape with keys as indices and serial/signature dropped, mtimes as rank order); shards = first operation. Oracle after every successful default-flag run: every entity complete; every hash-carrying certificate equals the reference translation of its current effective configuration AND the shape of the certificate a clean run of gopki produces for the same files, and verifies under its issuer's current certificate; complete hash-less artifacts untouched unless issuer regenerated/newer; one more default run is a no-op. states = union of canonical states over shards, transitions = operations executed on the real code (every explored transition is an implementation trace)",
 		Bound:       map[string]string{"depth": "quick 3, thorough 4 (5-entity world 3; config-edit+run alphabet 5)", "entities": "3 (5 in thorough)"},
 		Assumptions: []string{"nothing is demanded after a run that fails (dangling issuer etc.: C18)", "key type of re-used keys versus a clean run is not compared", "crashes are counted and left to C20"},
-		Budget:      budgets(quickBudget, thoroughBudget),
+		Budget:      budgets(quickBudget, 50*time.Minute),
 		Enumerate:   c12Enumerate,
 		NewCase:     func() any { return &c12Case{} },
 		Exec:        c12Exec,
